@@ -15,7 +15,7 @@ Definition no_blk (f : cfile) : Prop := forall b, In b (cf_blocks f) -> fb_state
    identified by its path or (with usable inodes) by its inode *)
 Definition origin (usable : bool) (f0 : cfile) (sf : sfile) : Prop :=
   let f := sf_f sf in
-  cf_blocks f = cf_blocks f0 /\ cf_size f = cf_size f0 /\ cf_mtime f = cf_mtime f0 /\
+  cf_blocks f = cf_blocks f0 /\ cf_size f = cf_size f0 /\ cf_mtime f = cf_mtime f0 /\ cf_copy f = cf_copy f0 /\
   (cf_nsec f = cf_nsec f0 \/ cf_nsec f0 = (-1)%Z) /\
   (if sf_present sf
    then cf_name f = cf_name f0 \/ (usable = true /\ cf_inode f = cf_inode f0)
@@ -72,7 +72,7 @@ Section Inv.
       + apply di_origin0. rewrite Ef. apply in_app3. auto.
       + subst x. destruct (di_origin0 sf) as [f0 [Hf0 O]]; [rewrite Ef; apply in_app3; auto|].
         exists f0. split; [exact Hf0|]. unfold origin in *. rewrite Hp in O. simpl.
-        destruct O as [O1 [O2 [O3 [O4 [O5 O6]]]]]. repeat split; auto.
+        destruct O as [O1 [O2 [O3 [Oc [O4 [O5 O6]]]]]]. repeat split; auto.
       + apply di_origin0. rewrite Ef. apply in_app3. auto.
     - intros x Hx Hpx. apply in_app3 in Hx. destruct Hx as [Hx|[Hx|Hx]].
       + apply di_present0; [rewrite Ef; apply in_app3; auto | exact Hpx].
@@ -158,7 +158,7 @@ Section Inv.
     assert (Hm : ematch e f') by (unfold ematch; repeat split; congruence).
     destruct (di_origin0 sf Hsf) as [f0 [Hf0 O]].
     assert (O' : origin usable f0 (mkSF f' true false)).
-    { unfold origin in *. rewrite Hp in O. simpl. destruct O as [O1 [O2 [O3 [O4 [O5 O6]]]]].
+    { unfold origin in *. rewrite Hp in O. simpl. destruct O as [O1 [O2 [O3 [Oc [O4 [O5 O6]]]]]].
       repeat split; try congruence.
       - destruct O4 as [O4|O4]; [|right; exact O4]. destruct R7 as [R7|R7]; [left; congruence|].
         (* old nsec -1 *) right. congruence.
